@@ -1747,11 +1747,24 @@ impl T {
         for j in 0..NSN {
             if let Some(s) = self.snaps[j].as_ref() {
                 if let Some(id) = s.id {
-                    s.s.as_ref().unwrap().check_live(Some(id), "C02", mon::ORIGINS[s.origin as usize]);
-                    let c = s.s.verif_counts().unwrap();
-                    if c.destructed {
-                        mon::violation("C02", &format!("C02|destructed-flag-under-snapshot|origin={}", mon::ORIGINS[s.origin as usize]), format!("#{}: DESTRUCTED set while a snapshot under a live guard is held", id));
+                    let c01 = mon::check_prop() == "C01";
+                    if !c01 {
+                        s.s.as_ref().unwrap().check_live(Some(id), "C02", mon::ORIGINS[s.origin as usize]);
+                        let c = s.s.verif_counts().unwrap();
+                        if c.destructed {
+                            mon::violation("C02", &format!("C02|destructed-flag-under-snapshot|origin={}", mon::ORIGINS[s.origin as usize]), format!("#{}: DESTRUCTED set while a snapshot under a live guard is held", id));
+                        }
                     }
+                    // the snapshot is turned into an owner, which must then refer to a live object (C01: "however obtained")
+                    let r = s.s.counted();
+                    l_add(&obj(id).rc, 1);
+                    r.as_ref().unwrap().check_live(Some(id), "C01", "Snapshot::counted");
+                    let c = r.verif_counts().unwrap();
+                    if c.strong == 0 || c.destructed {
+                        mon::violation("C01", "C01|count-word-bad-under-rc|via=Snapshot::counted", format!("#{}: count word {:?} behind an Rc returned by Snapshot::counted (origin of the snapshot: {})", id, c, mon::ORIGINS[s.origin as usize]));
+                    }
+                    l_add(&obj(id).rc, -1);
+                    drop(r);
                 }
             }
         }
